@@ -143,6 +143,22 @@ class _Hooks:
 
     def setup(self, env):
         self.tap = tapmod.Tap(env.wire, keep_payloads=False)
+        # progress monitor (logical steps, not wall-clock): key exchanges
+        # that follow each other without a single connection-layer message
+        # in between are a re-key loop; the link is cut so that the run ends
+        streak = [0]
+        self.livelock = None
+
+        def watch(lt, d, seq, t, payload, info):
+            if t == R.MSG_NEWKEYS and d == C2S:
+                streak[0] += 1
+                if streak[0] > 25 and self.livelock is None:
+                    self.livelock = ('either', streak[0], len(lt.events))
+                    for link in env.wire.links:
+                        env.loop.call_soon(link.cut, 'both')
+            elif isinstance(t, int) and t >= 80:
+                streak[0] = 0
+        self.tap.listeners.append(watch)
         if self.case['trigger'] == 'time':
             from asyncssh import connection as C
             self.patched = (C, C.time)
@@ -157,6 +173,15 @@ class _Hooks:
             if self.patched:
                 self.patched[0].time = self.patched[1]
                 c07.YIELD_SLEEP = 0
+            if self.livelock is not None:
+                viol.append({
+                    'mechanism': 'rekey_livelock',
+                    'detail': f'direction {self.livelock[0]}: '
+                              f'{self.livelock[1]} key exchanges in a row '
+                              f'with no connection-layer message between '
+                              f'them ({self.livelock[2]} records so far); '
+                              f'trigger={self.case["trigger"]} rekey_bytes='
+                              f'{self.case["rekey_bytes"]}'})
             if not self.tap.ok or 0 not in self.tap.links:
                 return
             lt = self.tap[0]
